@@ -249,7 +249,7 @@ impl<R: Round> Context<R> {
         // When one_plus is true and |x| < 1/B, the input is fed into the Maclaurin without scaling
         let no_scaling = one_plus && x.log2_est() < -B.log2_est();
 
-        let (s, mut x_scaled) = if no_scaling {
+        let (mut s, mut x_scaled) = if no_scaling {
             (0, x)
         } else {
             let x = if one_plus { x + FBig::ONE } else { x };
@@ -267,6 +267,25 @@ impl<R: Round> Context<R> {
             debug_assert!(x_scaled >= FBig::<R, B>::ONE);
             (s, x_scaled)
         };
+
+        // The estimate above is an f32: once |log2(x)| exceeds 2^24 it can be far below the true
+        // value, which leaves x_scaled much larger than 2 and the series below converges too
+        // slowly to ever finish. The remaining factor is small, so its estimate is precise.
+        if !no_scaling {
+            loop {
+                let rest = x_scaled.log2_bounds().0;
+                if rest < 1. {
+                    break;
+                }
+                let r = rest as isize;
+                x_scaled = if B == 2 {
+                    x_scaled >> r
+                } else {
+                    x_scaled / (IBig::ONE << r as usize)
+                };
+                s += r;
+            }
+        }
 
         if s < 0 || x_scaled.repr.sign() == Sign::Negative {
             // when s or x_scaled is negative, the final addition is actually a subtraction,
